@@ -553,8 +553,8 @@ class Session:
                     out.add("union")
                 elif n["k"] in model.SETLIKE:
                     out.add("set")
-                elif n["k"] == "ref" and self.world is not None:
-                    rk = (n["m"], n["n"])
+                elif (n["k"] == "ref" or (n["k"] == "fref" and n.get("m"))) and self.world is not None:
+                    rk = (n["m"], n["n"] if n["k"] == "ref" else n["s"])
                     if rk in seen:
                         continue
                     seen.add(rk)
